@@ -9,8 +9,27 @@ for m in pkgutil.iter_modules([os.path.dirname(__file__)]):
     mod = importlib.import_module("engines." + m.name)
     ENGINES[m.name] = mod
 
+import re
+_DERIVED = re.compile(r"\b(copy_shallow|copy_deep|subarray|sublist|filter|get_keys|get_values|copy|to_array)\b")
+_ITER = re.compile(r"\b(iter\w*|zip\w*|diter\w*|next|irm|foreach\w*)\b")
+_BIGNUM = re.compile(r"\b(\d{10,}|0x[0-9a-fA-F]{8,})\b")
+MODE_FILTERS = {
+    # textual selectors applied to an engine's full scope when a cross-cutting property asks for one aspect
+    "queue":   lambda t: "kind=queue" in t[0],
+    "stack":   lambda t: "kind=stack" in t[0],
+    "faults":  lambda t: "plan=" in t[0],
+    "iter":    lambda t: any(_ITER.search(l) for l in t[1:]),
+    "derived": lambda t: any(_DERIVED.search(l) for l in t[1:]),
+    "bounds":  lambda t: any(_BIGNUM.search(l) for l in t[1:]) or len(t) <= 5,
+    "sort":    lambda t: any("sort" in l for l in t[1:]),
+    "growth":  lambda t: sum(1 for l in t[1:] if re.search(r"\b(add|add_last|add_first|push|enqueue|enq)\b", l)) >= 6 or any("trim" in l for l in t[1:]),
+}
+
 def generate(engine, rng, tier, mode="default"):
     traces = ENGINES[engine].generate(rng, tier, mode)
+    if mode in MODE_FILTERS:
+        sel = [t for t in traces if MODE_FILTERS[mode](t)]
+        if len(sel) >= 20: traces = sel
     res = []
     for i, t in enumerate(traces):
         tid = "%s-%d" % (engine, i)
